@@ -133,8 +133,11 @@ static void run_C11(const Args &a, long cs) {
 	if (small && !(lmin > 0 && anorm / lmin < 1e10)) { count("problems-skipped(condition>1e10)"); return; }
 	uint64_t h = hash_mix(11, n); for (int i = 0; i < n && i < 40; i++) h = hash_d(h, p.b[i]); for (size_t i = 0; i < p.A.size() && i < 200; i++) h = hash_d(h, p.A[i]);
 	struct S { const char *name; int id; double t_neg; double tol_dual; };
-	double kkt3 = (double)n * DBL_EPSILON * 1e5, lhtol = 1e-10;
-	S solvers[] = {{"nnls_normal_block3", 0, 0.0, kkt3}, {"nnls_normal_block", 1, 1e-6, 1e-6}, {"nnls_normal_block_updown", 2, 1e-6, 1e-6}, {"nnls_lawson_hanson(normaleq)", 3, lhtol, lhtol}, {"nnls_lawson_hanson(ls)", 4, lhtol, lhtol}};
+	// Lawson-Hanson takes its tolerance from the caller: a caller states it relative to the size of the data (1e-10 of the largest |b_i|); an absolute 1e-10 on data
+	// scaled by 1e6 lies below the rounding noise eps*|A||x| of the gradient the solver tests, where no active-set method can terminate reliably
+	double bscale = 0; for (int i = 0; i < n; i++) bscale = std::max(bscale, std::fabs(p.b[i])); if (!(bscale > 0)) bscale = 1;
+	double kkt3 = (double)n * DBL_EPSILON * 1e5, lhtol = 1e-10 * bscale;
+	S solvers[] = {{"nnls_normal_block3", 0, 0.0, kkt3}, {"nnls_normal_block", 1, 1e-6, 1e-6}, {"nnls_normal_block_updown", 2, 1e-6, 1e-6}, {"nnls_lawson_hanson(normaleq)", 3, 0.0, lhtol}, {"nnls_lawson_hanson(ls)", 4, 0.0, lhtol}};
 	for (auto &sv : solvers) {
 		if (sv.id == 4 && (p.m == 0 || p.kind.find("banded") != std::string::npos || !small)) continue; // LS form only where A = B'B (+eps I folded into extra rows)
 		if ((sv.id == 3 || sv.id == 4) && n > 60) continue;
@@ -160,7 +163,7 @@ static void run_C11(const Args &a, long cs) {
 		case 0: x = nnls_normal_block3(As, bd, getenv("VF_NNLS_VERBOSE") ? 1 : 0, &CC); break;
 		case 1: x = nnls_normal_block(As, bd, 0, &CC); break;
 		case 2: x = nnls_normal_block_updown(As, bd, 0, &CC); break;
-		case 3: x = nnls_lawson_hanson(As, bd, lhtol, 0, 0, 0, 1, 0, &CC); break;
+		case 3: x = nnls_lawson_hanson(As, bd, lhtol, 0, 0, 0, 1, getenv("VF_NNLS_VERBOSE") ? 1 : 0, &CC); break;
 		default: x = nnls_lawson_hanson(As, bd, lhtol, 0, 0, 0, 0, 0, &CC); break;
 		}
 		g_in_solver = 0;
